@@ -64,6 +64,7 @@ type simTransport struct {
 	unreachable atomic.Bool
 	// a hung process: its sockets stay open (connections are accepted and bytes swallowed) but nothing answers
 	hung      atomic.Bool
+	stalled   atomic.Bool // with hung: accepted connections are never read either
 	hungMu    sync.Mutex
 	hungConns []net.Conn
 	// reads this node has pending on streams to hung peers (each must end at the stream's deadline)
@@ -202,7 +203,9 @@ func (t *simTransport) DialTimeout(addr string, timeout time.Duration) (net.Conn
 		dst.hungMu.Lock()
 		dst.hungConns = append(dst.hungConns, b)
 		dst.hungMu.Unlock()
-		go io.Copy(io.Discard, b)
+		if !dst.stalled.Load() {
+			go io.Copy(io.Discard, b)
+		} // else: accepted, never read - a peer with a closed receive window: writes wait for their deadline
 		return &trackedConn{Conn: a, ctr: &t.pendingHungReads}, nil
 	}
 	if bad {
